@@ -24,6 +24,7 @@ void        vp_unmap(uint8_t* p, size_t n);
 uint8_t*    vp_guard_end(size_t n);                         /* n bytes; byte n is inaccessible   */
 uint8_t*    vp_guard_begin(size_t n);                       /* n bytes; byte -1 is inaccessible  */
 void        vp_guard_free(uint8_t* p, size_t n);
+uint8_t*    vp_map_at(uint64_t addr, size_t n);             /* at exactly this address, or NULL          */
 void        vp_readonly(uint8_t* page, size_t n, int on);   /* pages from vp_map(): read-only on/off          */
 uint8_t*    vp_heap(size_t n);                              /* malloc(n): exact extent under ASan */
 void        vp_heap_free(uint8_t* p);
